@@ -199,3 +199,15 @@ Example C20_asm_removed_example_R :
      = nth 2 (nth 0 (overlap_integral RK ex_asm_basis None) []) 0%R.
 Proof. exact asm_removed_example. Qed.
 Print Assumptions C20_asm_removed_example_R.
+
+(* two Cartesian s shells 3 bohr apart, tol = 1/2: every hypothesis of the Cartesian theorems holds, the
+   off-diagonal entry is removed and the unscreened entry obeys the bound *)
+Example C20_asm_cart_example_R :
+  cart_basis ex_cart_basis /\ basis_wf ex_cart_basis /\ (forall s, In s ex_cart_basis -> pos_exps s)
+  /\ scr RK (Some (/ 2)%R) ex_cart_basis 0 1 = true
+  /\ nth 1 (nth 0 (overlap_integral_screened RK ex_cart_basis None (Some (/ 2)%R)) []) 0%R = 0%R
+  /\ (Rabs (nth 1 (nth 0 (overlap_integral RK ex_cart_basis None) []) 0)
+      <= / 2 * (AssembledP.ncont RK (ex_shell 0) 0 0 * abs_sum (col 0 [1] [[1]]))
+             * (AssembledP.ncont RK (ex_shell 3) 0 0 * abs_sum (col 0 [1] [[1]])))%R.
+Proof. exact asm_cart_example. Qed.
+Print Assumptions C20_asm_cart_example_R.
